@@ -36,7 +36,9 @@ impl IntTy {
     }
     fn all() -> Vec<IntTy> {
         use IntTy::*;
-        vec![U8, I8, U16, U32, U64, Usize, U128, I16, I32, I64, Isize, I128]
+        vec![
+            U8, I8, U16, U32, U64, Usize, U128, I16, I32, I64, Isize, I128,
+        ]
     }
 }
 
@@ -91,11 +93,25 @@ fn ref_bytes(raw: u128, w: usize, o: u8) -> Vec<u8> {
 
 pub trait Buf {
     fn b_len(&self) -> usize;
-    fn put_int(&mut self, t: IntTy, o: u8, raw: u128, write: bool) -> Result<(), String>;
-    fn get_int(&mut self, t: IntTy, o: u8) -> Result<u128, String>;
+    /// `fits`: the caller knows that the value fits / is available, so the `_unchecked` variants are inside their contract
+    fn put_int(
+        &mut self,
+        t: IntTy,
+        o: u8,
+        raw: u128,
+        write: bool,
+        fits: bool,
+    ) -> Result<(), String>;
+    fn get_int(&mut self, t: IntTy, o: u8, avail: bool) -> Result<u128, String>;
+    fn get_slice_(
+        &mut self,
+        size: usize,
+        mutable: bool,
+        unchecked: bool,
+    ) -> Result<(usize, usize), String>;
     fn put_var(&mut self, t: VarTy, raw: u128, write: bool) -> Result<usize, String>;
     fn get_var(&self, t: VarTy) -> Result<(usize, u128), String>;
-    fn put_slice_(&mut self, s: &[u8], write: bool) -> Result<(), String>;
+    fn put_slice_(&mut self, s: &[u8], write: bool, unchecked: bool) -> Result<(), String>;
     fn set_len_(&mut self, l: usize);
     fn align_to_<T>(&mut self) -> Result<usize, String>;
     fn put_<T: Ty>(&mut self, v: T) -> Result<usize, String>;
@@ -113,7 +129,7 @@ macro_rules! impl_buf {
             fn base_ptr(&mut self) -> usize {
                 self.as_mut_ptr() as usize
             }
-            fn put_int(&mut self, t: IntTy, o: u8, raw: u128, write: bool) -> Result<(), String> {
+            fn put_int(&mut self, t: IntTy, o: u8, raw: u128, write: bool, fits: bool) -> Result<(), String> {
                 macro_rules! arm {
                     ($ty:ty, $pbe:ident, $ple:ident, $pne:ident, $wbe:ident, $wle:ident, $wne:ident) => {{
                         let v = raw as $ty;
@@ -135,6 +151,15 @@ macro_rules! impl_buf {
                     }};
                 }
                 match t {
+                    // the one-byte puts have no io::Write twin; `write` selects the unchecked variant when the byte fits
+                    IntTy::U8 if write && fits => {
+                        unsafe { self.put_u8_unchecked(raw as u8) };
+                        Ok(())
+                    }
+                    IntTy::I8 if write && fits => {
+                        unsafe { self.put_i8_unchecked(raw as i8) };
+                        Ok(())
+                    }
                     IntTy::U8 => self.put_u8(raw as u8).map_err(|e| format!("{e:?}")),
                     IntTy::I8 => self.put_i8(raw as i8).map_err(|e| format!("{e:?}")),
                     IntTy::U16 => arm!(u16, put_u16_be, put_u16_le, put_u16_ne, write_u16_be, write_u16_le, write_u16_ne),
@@ -149,7 +174,7 @@ macro_rules! impl_buf {
                     IntTy::I128 => arm!(i128, put_i128_be, put_i128_le, put_i128_ne, write_i128_be, write_i128_le, write_i128_ne),
                 }
             }
-            fn get_int(&mut self, t: IntTy, o: u8) -> Result<u128, String> {
+            fn get_int(&mut self, t: IntTy, o: u8, avail: bool) -> Result<u128, String> {
                 macro_rules! arm {
                     ($be:ident, $le:ident, $ne:ident) => {
                         match o {
@@ -162,6 +187,9 @@ macro_rules! impl_buf {
                     };
                 }
                 match t {
+                    // one byte has no byte order: order 1 selects the unchecked variant when a byte is there
+                    IntTy::U8 if o == 1 && avail => Ok(unsafe { self.get_u8_unchecked() } as u128),
+                    IntTy::I8 if o == 1 && avail => Ok(unsafe { self.get_i8_unchecked() } as u128),
                     IntTy::U8 => self.get_u8().map(|v| v as u128).map_err(|e| format!("{e:?}")),
                     IntTy::I8 => self.get_i8().map(|v| v as u128).map_err(|e| format!("{e:?}")),
                     IntTy::U16 => arm!(get_u16_be, get_u16_le, get_u16_ne),
@@ -214,8 +242,19 @@ macro_rules! impl_buf {
                     VarTy::I128 => arm!(get_i128_varint),
                 }
             }
-            fn put_slice_(&mut self, s: &[u8], write: bool) -> Result<(), String> {
-                if write {
+            fn get_slice_(&mut self, size: usize, mutable: bool, unchecked: bool) -> Result<(usize, usize), String> {
+                match (mutable, unchecked) {
+                    (false, false) => self.get_slice(size).map(|s| (s.as_ptr() as usize, s.len())).map_err(|e| format!("{e:?}")),
+                    (true, false) => self.get_slice_mut(size).map(|s| (s.as_ptr() as usize, s.len())).map_err(|e| format!("{e:?}")),
+                    (false, true) => Ok(unsafe { self.get_slice_unchecked(size) }).map(|s| (s.as_ptr() as usize, s.len())),
+                    (true, true) => Ok(unsafe { self.get_slice_mut_unchecked(size) }).map(|s| (s.as_ptr() as usize, s.len())),
+                }
+            }
+            fn put_slice_(&mut self, s: &[u8], write: bool, unchecked: bool) -> Result<(), String> {
+                if unchecked {
+                    unsafe { self.put_slice_unchecked(s) };
+                    Ok(())
+                } else if write {
                     use std::io::Write;
                     self.write(s).map(|_| ()).map_err(|e| format!("{e:?}"))
                 } else {
@@ -251,16 +290,54 @@ impl Raw {
 
 #[derive(Clone, Debug, Serialize, Deserialize)]
 pub enum Call {
-    PutInt { t: IntTy, o: u8, raw: Raw, write: bool },
-    GetInt { t: IntTy, o: u8 },
-    RoundTrip { t: IntTy, o: u8, raw: Raw },
-    PutVar { t: VarTy, raw: Raw, write: bool },
-    GetVar { t: VarTy },
-    PutSlice { len: u16, write: bool },
-    SetLen { l: u16 },
-    AlignTo { ty: u8 },
-    Put { ty: u8 },
-    PutAligned { ty: u8 },
+    PutInt {
+        t: IntTy,
+        o: u8,
+        raw: Raw,
+        write: bool,
+    },
+    GetInt {
+        t: IntTy,
+        o: u8,
+    },
+    RoundTrip {
+        t: IntTy,
+        o: u8,
+        raw: Raw,
+    },
+    PutVar {
+        t: VarTy,
+        raw: Raw,
+        write: bool,
+    },
+    GetVar {
+        t: VarTy,
+    },
+    PutSlice {
+        len: u16,
+        write: bool,
+        /// put_slice_unchecked, honoured only when the slice fits (its contract)
+        #[serde(default)]
+        unchecked: bool,
+    },
+    /// get_slice / get_slice_mut (and their unchecked variants when `size` bytes are there) over the written prefix
+    GetSlice {
+        size: u16,
+        mutable: bool,
+        unchecked: bool,
+    },
+    SetLen {
+        l: u16,
+    },
+    AlignTo {
+        ty: u8,
+    },
+    Put {
+        ty: u8,
+    },
+    PutAligned {
+        ty: u8,
+    },
 }
 
 #[derive(Clone, Debug, Serialize, Deserialize)]
@@ -277,12 +354,21 @@ pub struct CaseC14 {
     pub odd: u8,
     pub fill: u16,
     pub calls: Vec<Call>,
+    /// maximum alignment of the arena: 16 << (malign % 3)
+    #[serde(default)]
+    pub malign: u8,
+    /// unsync only: the arena is resized (truncate; size by this value, monotone over 512..=2048) before anything is
+    /// allocated - a buffer is only as aligned as the memory the arena lives in
+    #[serde(default)]
+    pub trunc: Option<u16>,
 }
 
 pub struct C14;
 
 fn vals() -> BoxedStrategy<Raw> {
-    vals128().prop_map(|v| Raw((v >> 64) as u64, v as u64)).boxed()
+    vals128()
+        .prop_map(|v| Raw((v >> 64) as u64, v as u64))
+        .boxed()
 }
 
 fn vals128() -> BoxedStrategy<u128> {
@@ -307,11 +393,12 @@ fn call_strategy() -> BoxedStrategy<Call> {
         6 => (it, 0u8..3, vals()).prop_map(|(t, o, raw)| Call::RoundTrip { t, o, raw }),
         4 => (vt.clone(), vals(), any::<bool>()).prop_map(|(t, raw, write)| Call::PutVar { t, raw, write }),
         2 => vt.prop_map(|t| Call::GetVar { t }),
-        3 => (0u16..100, any::<bool>()).prop_map(|(len, write)| Call::PutSlice { len, write }),
+        3 => (0u16..100, any::<bool>(), prop::bool::weighted(0.3)).prop_map(|(len, write, unchecked)| Call::PutSlice { len, write, unchecked }),
+        2 => (any::<u16>(), any::<bool>(), prop::bool::weighted(0.3)).prop_map(|(size, mutable, unchecked)| Call::GetSlice { size, mutable, unchecked }),
         3 => any::<u16>().prop_map(|l| Call::SetLen { l }),
-        4 => (0..nt).prop_map(|ty| Call::AlignTo { ty }),
-        3 => (0..nt).prop_map(|ty| Call::Put { ty }),
-        4 => (0..nt).prop_map(|ty| Call::PutAligned { ty }),
+        4 => (0..nt + 2).prop_map(|ty| Call::AlignTo { ty }),
+        3 => (0..nt + 2).prop_map(|ty| Call::Put { ty }),
+        4 => (0..nt + 2).prop_map(|ty| Call::PutAligned { ty }),
     ]
     .boxed()
 }
@@ -335,24 +422,79 @@ impl<B: Buf> Visitor for AlignV<'_, B> {
 
 const CANARY: u32 = 0xC0FFEE;
 
+// over-aligned types for the buffer calls only ("all T alignments"): in contract when the arena was created with a
+// maximum alignment at least as large; they follow the shared type table as virtual indices
+macro_rules! big {
+    ($name:ident, $a:literal, $s:literal) => {
+        #[repr(C, align($a))]
+        #[derive(Clone, Copy)]
+        pub struct $name(pub [u8; $s]);
+        impl Ty for $name {
+            const NEEDS_DROP: bool = false;
+            fn make(id: u32) -> Self {
+                let mut b = [0u8; $s];
+                for (i, x) in b.iter_mut().enumerate() {
+                    *x = pat(id, i);
+                }
+                $name(b)
+            }
+        }
+    };
+}
+big!(A32S32, 32, 32);
+big!(A64S64, 64, 64);
+const BIG: [TyMeta; 2] = [
+    TyMeta { name: "A32S32", size: 32, align: 32, needs_drop: false },
+    TyMeta { name: "A64S64", size: 64, align: 64, needs_drop: false },
+];
+fn ty_meta(ix: usize) -> TyMeta {
+    if ix < TYPES.len() {
+        TYPES[ix]
+    } else {
+        BIG[ix - TYPES.len()]
+    }
+}
+fn dispatch_c14<V: Visitor>(ix: usize, v: V) -> V::Out {
+    if ix < TYPES.len() {
+        dispatch(ix, v)
+    } else if ix == TYPES.len() {
+        v.visit::<A32S32>(&BIG[0])
+    } else {
+        v.visit::<A64S64>(&BIG[1])
+    }
+}
+
 struct Ctx {
     off: usize,
     cap: usize,
     len: usize,
     base: usize,
+    max_align: usize,
     classes: BTreeSet<&'static str>,
 }
 
-fn run_calls<A: Flavor, B: Buf>(arena: &'static A, b: &mut B, cx: &mut Ctx, calls: &[Call]) -> Result<(), Viol> {
+fn run_calls<A: Flavor, B: Buf>(
+    arena: &'static A,
+    b: &mut B,
+    cx: &mut Ctx,
+    calls: &[Call],
+) -> Result<(), Viol> {
     let mem = |a: &'static A| -> Vec<u8> { a.memory().to_vec() };
     let (off, cap) = (cx.off, cx.cap);
     for (ci, call) in calls.iter().enumerate() {
         let before = mem(arena);
         let len0 = b.b_len();
         if len0 != cx.len {
-            return Err(viol!("C14", "len-model", "call {ci}: len() is {len0}, model says {}", cx.len));
+            return Err(viol!(
+                "C14",
+                "len-model",
+                "call {ci}: len() is {len0}, model says {}",
+                cx.len
+            ));
         }
-        let outside_same = |after: &[u8]| -> Option<usize> { (0..after.len()).find(|&i| (i < off || i >= off + cap) && after[i] != before[i]) };
+        let outside_same = |after: &[u8]| -> Option<usize> {
+            (0..after.len()).find(|&i| (i < off || i >= off + cap) && after[i] != before[i])
+        };
         let near = |w: usize| len0 + w + 16 >= cap;
         macro_rules! check_outside {
             ($what:expr, $after:expr) => {
@@ -365,7 +507,11 @@ fn run_calls<A: Flavor, B: Buf>(arena: &'static A, b: &mut B, cx: &mut Ctx, call
             Call::PutInt { t, o, raw, write } => {
                 let raw = &raw.v();
                 let w = t.width();
-                let r = guard("put_int", "C14", || b.put_int(*t, *o, *raw, *write))?;
+                let fits = len0 + w <= cap;
+                if w == 1 && *write && fits {
+                    cx.classes.insert("unchecked-variant");
+                }
+                let r = guard("put_int", "C14", || b.put_int(*t, *o, *raw, *write, fits))?;
                 let after = mem(arena);
                 check_outside!("put", after);
                 if near(w) {
@@ -378,14 +524,28 @@ fn run_calls<A: Flavor, B: Buf>(arena: &'static A, b: &mut B, cx: &mut Ctx, call
                         }
                         let want = ref_bytes(*raw, w, *o);
                         if after[off + len0..off + len0 + w] != want[..] {
-                            return Err(viol!("C14", "put-bytes", "call {ci} {call:?}: stored {:x?}, expected {:x?}", &after[off + len0..off + len0 + w], want));
+                            return Err(viol!(
+                                "C14",
+                                "put-bytes",
+                                "call {ci} {call:?}: stored {:x?}, expected {:x?}",
+                                &after[off + len0..off + len0 + w],
+                                want
+                            ));
                         }
-                        if (0..cap).any(|i| (i < len0 || i >= len0 + w) && after[off + i] != before[off + i]) {
+                        if (0..cap).any(|i| {
+                            (i < len0 || i >= len0 + w) && after[off + i] != before[off + i]
+                        }) {
                             return Err(viol!("C14", "put-touched-other", "call {ci} {call:?}: bytes of the buffer outside [len, len+{w}) changed"));
                         }
                         cx.len += w;
                         if b.b_len() != cx.len {
-                            return Err(viol!("C14", "put-len", "call {ci} {call:?}: len {len0} -> {} expected {}", b.b_len(), cx.len));
+                            return Err(viol!(
+                                "C14",
+                                "put-len",
+                                "call {ci} {call:?}: len {len0} -> {} expected {}",
+                                b.b_len(),
+                                cx.len
+                            ));
                         }
                     }
                     Err(e) => {
@@ -393,7 +553,11 @@ fn run_calls<A: Flavor, B: Buf>(arena: &'static A, b: &mut B, cx: &mut Ctx, call
                             return Err(viol!("C14", "put-refused", "call {ci} {call:?}: refused ({e}) with len {len0} + {w} <= capacity {cap}"));
                         }
                         if *write && w > 1 && !e.contains("WriteZero") {
-                            return Err(viol!("C14", "write-error-kind", "call {ci} {call:?}: error {e}"));
+                            return Err(viol!(
+                                "C14",
+                                "write-error-kind",
+                                "call {ci} {call:?}: error {e}"
+                            ));
                         }
                         if after != before || b.b_len() != len0 {
                             return Err(viol!("C14", "failed-put-effect", "call {ci} {call:?}: failed ({e}) but changed bytes or len ({len0} -> {})", b.b_len()));
@@ -404,30 +568,54 @@ fn run_calls<A: Flavor, B: Buf>(arena: &'static A, b: &mut B, cx: &mut Ctx, call
             }
             Call::GetInt { t, o } => {
                 let w = t.width();
-                let r = guard("get_int", "C14", || b.get_int(*t, *o))?;
+                let r = guard("get_int", "C14", || b.get_int(*t, *o, len0 >= w))?;
                 let after = mem(arena);
                 if after != before {
-                    return Err(viol!("C14", "get-wrote", "call {ci} {call:?}: a get changed memory"));
+                    return Err(viol!(
+                        "C14",
+                        "get-wrote",
+                        "call {ci} {call:?}: a get changed memory"
+                    ));
                 }
                 match r {
                     Ok(v) => {
                         if len0 < w {
-                            return Err(viol!("C14", "get-accepted-short", "call {ci} {call:?}: returned a value with len {len0} < {w}"));
+                            return Err(viol!(
+                                "C14",
+                                "get-accepted-short",
+                                "call {ci} {call:?}: returned a value with len {len0} < {w}"
+                            ));
                         }
                         let want = &before[off + len0 - w..off + len0];
                         if ref_bytes(mask(v, w), w, *o) != want {
-                            return Err(viol!("C14", "get-value", "call {ci} {call:?}: returned {:#x} from bytes {:x?}", mask(v, w), want));
+                            return Err(viol!(
+                                "C14",
+                                "get-value",
+                                "call {ci} {call:?}: returned {:#x} from bytes {:x?}",
+                                mask(v, w),
+                                want
+                            ));
                         }
                         cx.len -= w;
                     }
                     Err(e) => {
                         if len0 >= w {
-                            return Err(viol!("C14", "get-refused", "call {ci} {call:?}: refused ({e}) with len {len0} >= {w}"));
+                            return Err(viol!(
+                                "C14",
+                                "get-refused",
+                                "call {ci} {call:?}: refused ({e}) with len {len0} >= {w}"
+                            ));
                         }
                     }
                 }
                 if b.b_len() != cx.len {
-                    return Err(viol!("C14", "get-len", "call {ci} {call:?}: len {len0} -> {} expected {}", b.b_len(), cx.len));
+                    return Err(viol!(
+                        "C14",
+                        "get-len",
+                        "call {ci} {call:?}: len {len0} -> {} expected {}",
+                        b.b_len(),
+                        cx.len
+                    ));
                 }
             }
             Call::RoundTrip { t, o, raw } => {
@@ -436,15 +624,32 @@ fn run_calls<A: Flavor, B: Buf>(arena: &'static A, b: &mut B, cx: &mut Ctx, call
                 if len0 + w > cap {
                     continue;
                 }
-                guard("put_int", "C14", || b.put_int(*t, *o, *raw, false))?.map_err(|e| viol!("C14", "put-refused", "call {ci} {call:?}: refused ({e}) with len {len0} + {w} <= capacity {cap}"))?;
+                guard("put_int", "C14", || b.put_int(*t, *o, *raw, false, true))?.map_err(|e| {
+                    viol!(
+                        "C14",
+                        "put-refused",
+                        "call {ci} {call:?}: refused ({e}) with len {len0} + {w} <= capacity {cap}"
+                    )
+                })?;
                 let mid = mem(arena);
                 check_outside!("put", mid);
-                let v = guard("get_int", "C14", || b.get_int(*t, *o))?.map_err(|e| viol!("C14", "get-refused", "call {ci} {call:?}: get after put refused: {e}"))?;
+                let v = guard("get_int", "C14", || b.get_int(*t, *o, true))?.map_err(|e| {
+                    viol!(
+                        "C14",
+                        "get-refused",
+                        "call {ci} {call:?}: get after put refused: {e}"
+                    )
+                })?;
                 if mask(v, w) != mask(*raw, w) {
                     return Err(viol!("C14", "roundtrip-value", "call {ci} {call:?}: put {:#x}, get of the same type and byte order returned {:#x}", mask(*raw, w), mask(v, w)));
                 }
                 if b.b_len() != len0 {
-                    return Err(viol!("C14", "roundtrip-len", "call {ci} {call:?}: len {len0} -> {} after put+get", b.b_len()));
+                    return Err(viol!(
+                        "C14",
+                        "roundtrip-len",
+                        "call {ci} {call:?}: len {len0} -> {} after put+get",
+                        b.b_len()
+                    ));
                 }
                 if near(w) {
                     cx.classes.insert("near-capacity");
@@ -461,12 +666,20 @@ fn run_calls<A: Flavor, B: Buf>(arena: &'static A, b: &mut B, cx: &mut Ctx, call
                         if len0 + n > cap || n == 0 {
                             return Err(viol!("C14", "varint-accepted-overflow", "call {ci} {call:?}: wrote {n} bytes with len {len0}, capacity {cap}"));
                         }
-                        if (0..cap).any(|i| (i < len0 || i >= len0 + n) && after[off + i] != before[off + i]) {
+                        if (0..cap).any(|i| {
+                            (i < len0 || i >= len0 + n) && after[off + i] != before[off + i]
+                        }) {
                             return Err(viol!("C14", "put-touched-other", "call {ci} {call:?}: bytes of the buffer outside [len, len+{n}) changed"));
                         }
                         cx.len += n;
                         if b.b_len() != cx.len {
-                            return Err(viol!("C14", "put-len", "call {ci} {call:?}: len {len0} -> {} expected {}", b.b_len(), cx.len));
+                            return Err(viol!(
+                                "C14",
+                                "put-len",
+                                "call {ci} {call:?}: len {len0} -> {} expected {}",
+                                b.b_len(),
+                                cx.len
+                            ));
                         }
                         if len0 == 0 {
                             // LEB128 put on an empty buffer followed by the matching get
@@ -483,10 +696,20 @@ fn run_calls<A: Flavor, B: Buf>(arena: &'static A, b: &mut B, cx: &mut Ctx, call
                     }
                     Err(_e) => {
                         if b.b_len() != len0 {
-                            return Err(viol!("C14", "failed-put-effect", "call {ci} {call:?}: failed but len {len0} -> {}", b.b_len()));
+                            return Err(viol!(
+                                "C14",
+                                "failed-put-effect",
+                                "call {ci} {call:?}: failed but len {len0} -> {}",
+                                b.b_len()
+                            ));
                         }
                         if cap - len0 >= 19 {
-                            return Err(viol!("C14", "put-refused", "call {ci} {call:?}: varint refused with {} bytes of room", cap - len0));
+                            return Err(viol!(
+                                "C14",
+                                "put-refused",
+                                "call {ci} {call:?}: varint refused with {} bytes of room",
+                                cap - len0
+                            ));
                         }
                         cx.classes.insert("put-refused");
                         cx.classes.insert("near-capacity");
@@ -497,13 +720,69 @@ fn run_calls<A: Flavor, B: Buf>(arena: &'static A, b: &mut B, cx: &mut Ctx, call
                 let _ = guard("get_varint", "C14", || b.get_var(*t))?;
                 let after = mem(arena);
                 if after != before || b.b_len() != len0 {
-                    return Err(viol!("C14", "get-wrote", "call {ci} {call:?}: a varint get changed memory or len"));
+                    return Err(viol!(
+                        "C14",
+                        "get-wrote",
+                        "call {ci} {call:?}: a varint get changed memory or len"
+                    ));
                 }
             }
-            Call::PutSlice { len, write } => {
+            Call::GetSlice {
+                size,
+                mutable,
+                unchecked,
+            } => {
+                // monotone map onto 0..=cap+2
+                let n = ((*size as usize) * (cap + 3)) >> 16;
+                let unchecked = *unchecked && n <= len0;
+                let r = guard("get_slice", "C14", || b.get_slice_(n, *mutable, unchecked))?;
+                let after = mem(arena);
+                if after != before || b.b_len() != len0 {
+                    return Err(viol!(
+                        "C14",
+                        "get-wrote",
+                        "call {ci} {call:?}: get_slice({n}) changed memory or len ({len0} -> {})",
+                        b.b_len()
+                    ));
+                }
+                match r {
+                    Ok((ptr, l)) => {
+                        if n > len0 {
+                            return Err(viol!("C14", "get-accepted-short", "call {ci} {call:?}: get_slice({n}) returned a slice with len {len0} < {n}"));
+                        }
+                        if l != n || (n > 0 && ptr != cx.base) {
+                            return Err(viol!("C14", "get-slice-range", "call {ci} {call:?}: get_slice({n}) returned {l} bytes at buffer-relative {} (len {len0})", ptr.wrapping_sub(cx.base) as isize));
+                        }
+                        cx.classes.insert("get-slice");
+                        if unchecked {
+                            cx.classes.insert("unchecked-variant");
+                        }
+                    }
+                    Err(e) => {
+                        if n <= len0 {
+                            return Err(viol!(
+                                "C14",
+                                "get-refused",
+                                "call {ci} {call:?}: get_slice({n}) refused ({e}) with len {len0}"
+                            ));
+                        }
+                    }
+                }
+            }
+            Call::PutSlice {
+                len,
+                write,
+                unchecked,
+            } => {
                 let n = *len as usize;
                 let data: Vec<u8> = (0..n).map(|i| pat(0x51CE + ci as u32, i)).collect();
-                let r = guard("put_slice", "C14", || b.put_slice_(&data, *write))?;
+                let unchecked = *unchecked && len0 + n <= cap;
+                if unchecked {
+                    cx.classes.insert("unchecked-variant");
+                }
+                let r = guard("put_slice", "C14", || {
+                    b.put_slice_(&data, *write, unchecked)
+                })?;
                 let after = mem(arena);
                 check_outside!("put-slice", after);
                 match r {
@@ -512,11 +791,21 @@ fn run_calls<A: Flavor, B: Buf>(arena: &'static A, b: &mut B, cx: &mut Ctx, call
                             return Err(viol!("C14", "put-accepted-overflow", "call {ci} {call:?}: accepted with len {len0} + {n} > capacity {cap}"));
                         }
                         if after[off + len0..off + len0 + n] != data[..] {
-                            return Err(viol!("C14", "put-bytes", "call {ci} {call:?}: stored bytes differ from the slice"));
+                            return Err(viol!(
+                                "C14",
+                                "put-bytes",
+                                "call {ci} {call:?}: stored bytes differ from the slice"
+                            ));
                         }
                         cx.len += n;
                         if b.b_len() != cx.len {
-                            return Err(viol!("C14", "put-len", "call {ci} {call:?}: len {len0} -> {} expected {}", b.b_len(), cx.len));
+                            return Err(viol!(
+                                "C14",
+                                "put-len",
+                                "call {ci} {call:?}: len {len0} -> {} expected {}",
+                                b.b_len(),
+                                cx.len
+                            ));
                         }
                     }
                     Err(e) => {
@@ -524,7 +813,11 @@ fn run_calls<A: Flavor, B: Buf>(arena: &'static A, b: &mut B, cx: &mut Ctx, call
                             return Err(viol!("C14", "put-refused", "call {ci} {call:?}: refused ({e}) with len {len0} + {n} <= capacity {cap}"));
                         }
                         if after != before || b.b_len() != len0 {
-                            return Err(viol!("C14", "failed-put-effect", "call {ci} {call:?}: failed but changed bytes or len"));
+                            return Err(viol!(
+                                "C14",
+                                "failed-put-effect",
+                                "call {ci} {call:?}: failed but changed bytes or len"
+                            ));
                         }
                         cx.classes.insert("put-refused");
                     }
@@ -542,27 +835,51 @@ fn run_calls<A: Flavor, B: Buf>(arena: &'static A, b: &mut B, cx: &mut Ctx, call
                 match r {
                     Ok(()) => {
                         if l > cap {
-                            return Err(viol!("C14", "set-len-accepted", "call {ci}: set_len({l}) accepted with capacity {cap}"));
+                            return Err(viol!(
+                                "C14",
+                                "set-len-accepted",
+                                "call {ci}: set_len({l}) accepted with capacity {cap}"
+                            ));
                         }
                         let (lo, hi) = (len0.min(l), len0.max(l));
                         if let Some(i) = (lo..hi).find(|&i| after[off + i] != 0) {
-                            return Err(viol!("C14", "set-len-not-zeroed", "call {ci}: set_len({l}) from {len0}: byte +{i} is {:#x}", after[off + i]));
+                            return Err(viol!(
+                                "C14",
+                                "set-len-not-zeroed",
+                                "call {ci}: set_len({l}) from {len0}: byte +{i} is {:#x}",
+                                after[off + i]
+                            ));
                         }
-                        if (0..cap).any(|i| (i < lo || i >= hi) && after[off + i] != before[off + i]) {
+                        if (0..cap)
+                            .any(|i| (i < lo || i >= hi) && after[off + i] != before[off + i])
+                        {
                             return Err(viol!("C14", "set-len-touched-other", "call {ci}: set_len({l}) from {len0} changed bytes outside [{lo}, {hi})"));
                         }
                         cx.len = l;
                         if b.b_len() != l {
-                            return Err(viol!("C14", "set-len-len", "call {ci}: set_len({l}) left len {}", b.b_len()));
+                            return Err(viol!(
+                                "C14",
+                                "set-len-len",
+                                "call {ci}: set_len({l}) left len {}",
+                                b.b_len()
+                            ));
                         }
                         cx.classes.insert("set-len");
                     }
                     Err(_) => {
                         if l <= cap {
-                            return Err(viol!("C14", "set-len-panicked", "call {ci}: set_len({l}) panicked with capacity {cap}"));
+                            return Err(viol!(
+                                "C14",
+                                "set-len-panicked",
+                                "call {ci}: set_len({l}) panicked with capacity {cap}"
+                            ));
                         }
                         if after != before || b.b_len() != len0 {
-                            return Err(viol!("C14", "set-len-panic-effect", "call {ci}: set_len({l}) panicked but changed state"));
+                            return Err(viol!(
+                                "C14",
+                                "set-len-panic-effect",
+                                "call {ci}: set_len({l}) panicked but changed state"
+                            ));
                         }
                     }
                 }
@@ -573,10 +890,13 @@ fn run_calls<A: Flavor, B: Buf>(arena: &'static A, b: &mut B, cx: &mut Ctx, call
                     Call::Put { .. } => 1,
                     _ => 2,
                 };
-                let tix = *ty as usize % TYPES.len();
-                let t = TYPES[tix];
-                if t.needs_drop {
+                let tix = *ty as usize % (TYPES.len() + BIG.len());
+                let t = ty_meta(tix);
+                if t.needs_drop || t.align > cx.max_align {
                     continue;
+                }
+                if t.align > 16 {
+                    cx.classes.insert("over-aligned-type");
                 }
                 if mode == 1 && (cx.base + len0) % t.align != 0 {
                     // `put` requires a prior align_to: calling it misaligned is the caller's bug. (The docs
@@ -586,7 +906,16 @@ fn run_calls<A: Flavor, B: Buf>(arena: &'static A, b: &mut B, cx: &mut Ctx, call
                 }
                 let id = 0x7000 + ci as u32;
                 let what = ["align_to", "put", "put_aligned"][mode as usize];
-                let (r, size, align) = guard(what, "C14", || dispatch(tix, AlignV { b: &mut *b, mode, id }))?;
+                let (r, size, align) = guard(what, "C14", || {
+                    dispatch_c14(
+                        tix,
+                        AlignV {
+                            b: &mut *b,
+                            mode,
+                            id,
+                        },
+                    )
+                })?;
                 let after = mem(arena);
                 check_outside!(what, after);
                 let len1 = b.b_len();
@@ -596,11 +925,19 @@ fn run_calls<A: Flavor, B: Buf>(arena: &'static A, b: &mut B, cx: &mut Ctx, call
                 match r {
                     Ok(addr) => {
                         if len1 > cap {
-                            return Err(viol!("C14", format!("{what}-len-beyond-capacity"), "call {ci} {call:?}: len {len0} -> {len1} > capacity {cap}"));
+                            return Err(viol!(
+                                "C14",
+                                format!("{what}-len-beyond-capacity"),
+                                "call {ci} {call:?}: len {len0} -> {len1} > capacity {cap}"
+                            ));
                         }
                         if size == 0 {
                             if len1 != len0 {
-                                return Err(viol!("C14", format!("{what}-zst-len"), "call {ci} {call:?}: zero-sized T moved len {len0} -> {len1}"));
+                                return Err(viol!(
+                                    "C14",
+                                    format!("{what}-zst-len"),
+                                    "call {ci} {call:?}: zero-sized T moved len {len0} -> {len1}"
+                                ));
                             }
                             cx.len = len1;
                             continue;
@@ -614,7 +951,11 @@ fn run_calls<A: Flavor, B: Buf>(arena: &'static A, b: &mut B, cx: &mut Ctx, call
                             return Err(viol!("C14", format!("{what}-outside-buffer"), "call {ci} {call:?}: pointer at buffer-relative {rel} (value end {end}) outside capacity {cap}"));
                         }
                         if rel < len0 {
-                            return Err(viol!("C14", format!("{what}-moved-back"), "call {ci} {call:?}: pointer at {rel} before len {len0}"));
+                            return Err(viol!(
+                                "C14",
+                                format!("{what}-moved-back"),
+                                "call {ci} {call:?}: pointer at {rel} before len {len0}"
+                            ));
                         }
                         let want_len = if mode == 0 { rel } else { rel + size };
                         if len1 != want_len {
@@ -625,21 +966,35 @@ fn run_calls<A: Flavor, B: Buf>(arena: &'static A, b: &mut B, cx: &mut Ctx, call
                             if after[off + rel..off + rel + size] != want[..] {
                                 return Err(viol!("C14", format!("{what}-bytes"), "call {ci} {call:?}: value bytes not stored at the returned position"));
                             }
-                            if (0..cap).any(|i| (i < rel || i >= rel + size) && after[off + i] != before[off + i]) {
+                            if (0..cap).any(|i| {
+                                (i < rel || i >= rel + size) && after[off + i] != before[off + i]
+                            }) {
                                 return Err(viol!("C14", "put-touched-other", "call {ci} {call:?}: bytes of the buffer outside the value changed"));
                             }
                         } else if after != before {
-                            return Err(viol!("C14", "align-to-wrote", "call {ci} {call:?}: align_to changed memory"));
+                            return Err(viol!(
+                                "C14",
+                                "align-to-wrote",
+                                "call {ci} {call:?}: align_to changed memory"
+                            ));
                         }
                         cx.len = len1;
                         cx.classes.insert("aligned-ok");
                     }
                     Err(e) => {
                         if len1 != len0 {
-                            return Err(viol!("C14", format!("{what}-failed-len"), "call {ci} {call:?}: failed ({e}) but len {len0} -> {len1}"));
+                            return Err(viol!(
+                                "C14",
+                                format!("{what}-failed-len"),
+                                "call {ci} {call:?}: failed ({e}) but len {len0} -> {len1}"
+                            ));
                         }
                         if mode > 0 && after != before {
-                            return Err(viol!("C14", "failed-put-effect", "call {ci} {call:?}: failed ({e}) but changed bytes"));
+                            return Err(viol!(
+                                "C14",
+                                "failed-put-effect",
+                                "call {ci} {call:?}: failed ({e}) but changed bytes"
+                            ));
                         }
                         if mode == 1 && len0 + size <= cap {
                             return Err(viol!("C14", "put-refused", "call {ci} {call:?}: refused ({e}) with len {len0} + {size} <= capacity {cap}"));
@@ -666,9 +1021,15 @@ impl<A: Flavor> Visitor for MkAligned<A> {
     type Out = Option<EitherBuf<A>>;
     fn visit<T: Ty>(self, _m: &TyMeta) -> Self::Out {
         if self.owned {
-            self.arena.alloc_aligned_bytes_owned::<T>(self.n).ok().map(EitherBuf::O)
+            self.arena
+                .alloc_aligned_bytes_owned::<T>(self.n)
+                .ok()
+                .map(EitherBuf::O)
         } else {
-            self.arena.alloc_aligned_bytes::<T>(self.n).ok().map(EitherBuf::R)
+            self.arena
+                .alloc_aligned_bytes::<T>(self.n)
+                .ok()
+                .map(EitherBuf::R)
         }
     }
 }
@@ -679,10 +1040,37 @@ fn run_c14<A: Flavor>(case: &CaseC14) -> CaseReport {
         0 => rarena_allocator::Freelist::Optimistic,
         _ => rarena_allocator::Freelist::Pessimistic,
     };
-    let opts = Options::new().with_capacity(1024).with_unify(case.unify).with_reserved(case.reserved as u32).with_freelist(fl).with_minimum_segment_size(8).with_maximum_alignment(16);
-    let Ok(arena) = opts.alloc::<A>() else {
-        return CaseReport { nontrivial: false, classes, viol: None };
+    let opts = Options::new()
+        .with_capacity(1024)
+        .with_unify(case.unify)
+        .with_reserved(case.reserved as u32)
+        .with_freelist(fl)
+        .with_minimum_segment_size(8)
+        .with_maximum_alignment(16usize << (case.malign % 3));
+    let max_align = 16usize << (case.malign % 3);
+    let Ok(mut arena) = opts.alloc::<A>() else {
+        return CaseReport {
+            nontrivial: false,
+            classes,
+            viol: None,
+        };
     };
+    if let Some(t) = case.trunc {
+        let n = 512 + ((t as usize * 1537) >> 16);
+        match arena.truncate_(n) {
+            Some(Ok(())) => {
+                classes.insert("resized-arena");
+            }
+            Some(Err(e)) => {
+                return CaseReport {
+                    nontrivial: false,
+                    classes,
+                    viol: Some(viol!("C18", "truncate-failed", "truncate({n}) of an empty Vec arena failed: {e:?}")),
+                };
+            }
+            None => {}
+        }
+    }
     let arena: &'static A = Box::leak(Box::new(arena));
     let res = (|| -> Result<(), Viol> {
         let cap = case.cap as u32 % 97;
@@ -711,7 +1099,14 @@ fn run_c14<A: Flavor>(case: &CaseC14) -> CaseReport {
         }
         let buf: Option<EitherBuf<A>> = if aligned {
             classes.insert("aligned-buffer");
-            dispatch(tix, MkAligned { arena, n: cap, owned: case.owned })
+            dispatch(
+                tix,
+                MkAligned {
+                    arena,
+                    n: cap,
+                    owned: case.owned,
+                },
+            )
         } else if case.owned {
             arena.alloc_bytes_owned(cap).ok().map(EitherBuf::O)
         } else {
@@ -732,26 +1127,42 @@ fn run_c14<A: Flavor>(case: &CaseC14) -> CaseReport {
         }
         let r = match buf {
             EitherBuf::R(mut b) => {
-                let mut cx = Ctx { off: Buffer::offset(&b), cap: Buffer::capacity(&b), len: 0, base: 0, classes: BTreeSet::new() };
+                let mut cx = Ctx {
+                    off: Buffer::offset(&b),
+                    cap: Buffer::capacity(&b),
+                    len: 0,
+                    base: 0,
+                    max_align,
+                    classes: BTreeSet::new(),
+                };
                 if Buffer::offset(&b) != Buffer::buffer_offset(&b) {
                     cx.classes.insert("offset-ne-buffer-offset");
                 }
                 cx.base = b.base_ptr();
                 let pre = vec![Call::SetLen { l: case.fill }];
-                let r = run_calls(arena, &mut b, &mut cx, &pre).and_then(|_| run_calls(arena, &mut b, &mut cx, &case.calls));
+                let r = run_calls(arena, &mut b, &mut cx, &pre)
+                    .and_then(|_| run_calls(arena, &mut b, &mut cx, &case.calls));
                 classes.extend(cx.classes.iter().copied());
                 unsafe { Buffer::detach(&mut b) };
                 r
             }
             EitherBuf::O(mut b) => {
-                let mut cx = Ctx { off: Buffer::offset(&b), cap: Buffer::capacity(&b), len: 0, base: 0, classes: BTreeSet::new() };
+                let mut cx = Ctx {
+                    off: Buffer::offset(&b),
+                    cap: Buffer::capacity(&b),
+                    len: 0,
+                    base: 0,
+                    max_align,
+                    classes: BTreeSet::new(),
+                };
                 if Buffer::offset(&b) != Buffer::buffer_offset(&b) {
                     cx.classes.insert("offset-ne-buffer-offset");
                 }
                 cx.base = b.base_ptr();
                 classes.insert("owned-buffer");
                 let pre = vec![Call::SetLen { l: case.fill }];
-                let r = run_calls(arena, &mut b, &mut cx, &pre).and_then(|_| run_calls(arena, &mut b, &mut cx, &case.calls));
+                let r = run_calls(arena, &mut b, &mut cx, &pre)
+                    .and_then(|_| run_calls(arena, &mut b, &mut cx, &case.calls));
                 classes.extend(cx.classes.iter().copied());
                 unsafe { Buffer::detach(&mut b) };
                 std::mem::forget(b);
@@ -763,8 +1174,13 @@ fn run_c14<A: Flavor>(case: &CaseC14) -> CaseReport {
         }
         r
     })();
-    let nontrivial = classes.contains("near-capacity") || classes.contains("offset-ne-buffer-offset");
-    CaseReport { nontrivial, classes, viol: res.err() }
+    let nontrivial =
+        classes.contains("near-capacity") || classes.contains("offset-ne-buffer-offset");
+    CaseReport {
+        nontrivial,
+        classes,
+        viol: res.err(),
+    }
 }
 
 impl Prop for C14 {
@@ -773,8 +1189,44 @@ impl Prop for C14 {
     const PROFILES: &'static [&'static str] = &["checked", "release"];
     fn strategy(tier: Tier) -> BoxedStrategy<CaseC14> {
         let ncalls = if tier == Tier::Thorough { 10 } else { 5 };
-        ((any::<bool>(), 0u8..2, any::<bool>(), prop_oneof![Just(0u8), 0u8..20], 0u8..4, any::<bool>()), (prop_oneof![3 => 0u16..40, 1 => 40u16..97], 0u8..crate::types::ntypes() as u8, any::<u8>(), any::<u16>(), prop::collection::vec(call_strategy(), 1..=ncalls)))
-            .prop_map(|((sync, freelist, unify, reserved, prov, owned), (cap, aty, odd, fill, calls))| CaseC14 { sync, freelist, unify, reserved, prov, owned, cap, aty, odd, fill, calls })
+        (
+            (
+                any::<bool>(),
+                0u8..2,
+                any::<bool>(),
+                prop_oneof![Just(0u8), 0u8..20],
+                0u8..4,
+                any::<bool>(),
+            ),
+            (
+                prop_oneof![3 => 0u16..40, 1 => 40u16..97],
+                0u8..crate::types::ntypes() as u8,
+                any::<u8>(),
+                any::<u16>(),
+                prop::collection::vec(call_strategy(), 1..=ncalls),
+                0u8..3,
+                prop_oneof![2 => Just(None), 1 => any::<u16>().prop_map(Some)],
+            ),
+        )
+            .prop_map(
+                |((sync, freelist, unify, reserved, prov, owned), (cap, aty, odd, fill, calls, malign, trunc))| {
+                    CaseC14 {
+                        sync,
+                        freelist,
+                        unify,
+                        reserved,
+                        prov,
+                        owned,
+                        cap,
+                        aty,
+                        odd,
+                        fill,
+                        calls,
+                        malign,
+                        trunc,
+                    }
+                },
+            )
             .boxed()
     }
     fn run(case: &CaseC14) -> CaseReport {
@@ -788,7 +1240,7 @@ impl Prop for C14 {
         scale(tier, 1_000_000, 12_000_000)
     }
     fn rule() -> &'static str {
-        "a buffer (fresh alloc_bytes / recycled from the free list / alloc_aligned_bytes::<T> at an odd cursor / both; borrowed or owned; capacity 0..96) inside an arena whose every other byte is a canary, pre-filled to a generated len, then 1..5 generated calls: put_*/write_* for 12 integer types x {be,le,ne} x boundary/random values, get_*, put+get round trips, LEB128 puts (+ get on an empty buffer), put_slice/write, set_len, align_to/put/put_aligned over the type table. Oracle: whole-memory() snapshot before/after each call: bytes outside [offset, offset+capacity) unchanged, len law, value bytes equal a reference encoder, failed fixed-width puts change nothing, set_len zero-fills exactly the exposed/hidden bytes, align_to pointers aligned and inside the buffer. Non-trivial = a call within size_of bytes of the capacity boundary, or a buffer whose offset differs from its buffer_offset"
+        "a buffer (fresh alloc_bytes / recycled from the free list / alloc_aligned_bytes::<T> at an odd cursor / both; borrowed or owned; capacity 0..96) inside an arena whose every other byte is a canary, pre-filled to a generated len, then 1..5 generated calls: put_*/write_* for 12 integer types x {be,le,ne} x boundary/random values, get_*, put+get round trips, LEB128 puts (+ get on an empty buffer), put_slice/write, get_slice/get_slice_mut over the written prefix, set_len, align_to/put/put_aligned over the type table plus two over-aligned types (32, 64; only on arenas whose maximum alignment - 16, 32 or 64 by case - allows them), on a third of the unsync cases after the arena was resized (truncate) before anything was allocated; the *_unchecked twins (put_u8/put_i8/put_slice/get_u8/get_i8/get_slice/get_slice_mut) are called instead whenever the harness knows the call is inside their contract, and judged by the same oracle. Oracle: whole-memory() snapshot before/after each call: bytes outside [offset, offset+capacity) unchanged, len law, value bytes equal a reference encoder, failed fixed-width puts change nothing, set_len zero-fills exactly the exposed/hidden bytes, align_to pointers aligned and inside the buffer. Non-trivial = a call within size_of bytes of the capacity boundary, or a buffer whose offset differs from its buffer_offset"
     }
     fn simplify(c: &CaseC14) -> Vec<CaseC14> {
         let mut out = Vec::new();
